@@ -22,16 +22,19 @@ Operations outside that theorem, and why:
     timestamp, offset, trailing bytes — for the regenerated operation by `listOffsets_gen_shape`);
     `listOffsets_two_partitions_counterexample` shows why the shape hypothesis is needed, `listOffsets_wf_example`
     is a concrete instance.
-  * fetch (`ReadBatchWith`/`Batch`): `fetch_aligned_or_closed`, for every message-set reader that conserves bytes, with
-    the hypothesis that a response at the high watermark carries an empty set (`fetch_at_watermark_counterexample`).
+  * fetch (`ReadBatchWith`/`Batch`): `fetch_aligned_or_closed`, for every message-set reader that conserves bytes (the
+    hypothesis is discharged for the reader stack of message_reader.go: `stackBody_conserves`); unconditional since the
+    fix C11-D32 (`fetch_at_watermark_counterexample` keeps the unfixed shape).
   * apiVersions: no `expectZeroSize`, no close on error in the Go code, so nothing can be said about arbitrary bytes;
     `apiVersions_aligned_wf`: on every well-formed v0 frame (any error code, any number of entries, anything after
     the frame) the result is ok / that kafka error and exactly the frame is consumed.
 The D2 shape (no drain) is kept as `d2_regression_counterexample`: the theorem is false for it.
 -/
 import KafkaVerif.Lemmas.ConnOps
+import KafkaVerif.Lemmas.ConnLocal
 import KafkaVerif.Model.ConnSpecs
 import KafkaVerif.Spec.ConnFrames
+import KafkaVerif.Model.ReaderStack
 
 namespace KV.C11
 open KV KV.Reader KV.ConnOps
@@ -114,10 +117,45 @@ theorem next_op_as_fresh (o : OpSpec) (v : Nat) (topic : Bytes) (c : Conn) (hdr 
   · rw [h.2]
   · rw [h.1] at hnf; cases hnf
 
+/-- **no byte of another response is ever looked at**: for EVERY operation (good or not), every version and every
+body, the result of an exchange is a function of the bytes of its own frame alone, and whatever follows the frame on
+the stream is still there, untouched, after whatever part of the frame was left unread.  (Locality of every parser
+program: `runSteps_local`, by the same mutual induction as conservation.) -/
+theorem result_depends_only_on_frame (o : OpSpec) (v : Nat) (topic : Bytes) (c : Conn) (hdr body rest : Bytes)
+    (hopen : c.closed = false)
+    (hstream : c.stream = hdr ++ body ++ rest) (hlen : hdr.length = 8)
+    (hsize : beInt (hdr.take 4) = body.length + 4) (hid : beInt (hdr.drop 4) = c.nextId) :
+    (connDo o v topic c).1 = (opRead o v topic ⟨body, body.length⟩).1 ∧
+    (connDo o v topic c).2.stream = (opRead o v topic ⟨body, body.length⟩).2.inp ++ rest := by
+  have hw := wait_ok c hdr body rest hstream hlen hsize hid
+  have hl := opRead_local o v topic rest ⟨body, body.length⟩ (by simp [Enough])
+  simp only [ext] at hl
+  unfold connDo
+  simp only [hopen, Bool.false_eq_true, ↓reduceIte, hw, hl]
+  exact ⟨trivial, trivial⟩
+
 /-- after a transport / framing error the Conn is closed and every later operation fails, forever -/
 theorem closed_stays_failed (o : OpSpec) (v : Nat) (topic : Bytes) (c : Conn) (h : c.closed = true) :
     (connDo o v topic c).1.isFail = true ∧ (connDo o v topic c).2 = c := by
   unfold connDo; simp [h, Outcome.isFail]
+
+/-- a response nobody asked for (foreign correlation id at the head of the stream, one waiter): io.ErrNoProgress AND the
+Conn is closed (fix C11-D30) — so by `closed_stays_failed` every later operation fails, whatever ids it uses; before
+the fix a later request whose id happened to equal the stale frame's took it for its own response. -/
+theorem desync_closes (o : OpSpec) (v : Nat) (topic : Bytes) (c : Conn) (hopen : c.closed = false)
+    (hlen : 8 ≤ c.stream.length) (hid : beInt ((c.stream.drop 4).take 4) ≠ c.nextId) :
+    (connDo o v topic c).1.isFail = true ∧ (connDo o v topic c).2.closed = true ∧
+    ∀ o₂ v₂, (connDo o₂ v₂ topic (connDo o v topic c).2).1.isFail = true := by
+  have hw : waitResponse c = .error (.other "io.ErrNoProgress") := by
+    unfold waitResponse
+    have : ¬ c.stream.length < 8 := by omega
+    simp [this, hid]
+  have h1 : connDo o v topic c = (.fail (.other "io.ErrNoProgress"), { c with nextId := c.nextId + 1, closed := true }) := by
+    unfold connDo
+    simp [hopen, hw]
+  rw [h1]
+  refine ⟨rfl, rfl, fun o₂ v₂ => ?_⟩
+  exact (closed_stays_failed o₂ v₂ topic _ rfl).1
 
 theorem closed_stays_failed_fetch (fixed : Bool) (v : Nat) (off : Int) (b : Body) (c : Conn) (h : c.closed = true) :
     (connFetch fixed v off b c).1.isFail = true ∧ (connFetch fixed v off b c).2 = c := by
@@ -151,6 +189,10 @@ theorem produce_good : goodFor "produce" [2, 3, 7] = true := by decide
 
 theorem fetch_fixed : fetchFixed = true := by decide
 
+/-- `do` and `Batch.close` close the connection on exactly the non-kafka errors (regenerated; `connFetch` closes on every
+failed outcome, and failed = non-kafka there) -/
+theorem close_rules_hold : Gen.ConnLegacy.doClosesNonKafka = true ∧ Gen.ConnLegacy.batchClosesNonKafka = true := by decide
+
 /-! ### the regenerated parser programs are the Kafka layouts (Spec/ConnFrames.lean, transcribed independently) -/
 
 open KV.Gen.ConnLegacy KV.Spec.ConnFrames in
@@ -176,6 +218,38 @@ theorem gen_partitions_match_spec :
     renderSteps 2 produceResponsePartitionV2 = renderSteps 2 (producePartition 2) ∧
     renderSteps 3 produceResponsePartitionV2 = renderSteps 3 (producePartition 3) ∧
     renderSteps 7 produceResponsePartitionV7 = renderSteps 7 (producePartition 7) := by decide
+
+/-! ### the transcribed closures / fetch headers are what the translator regenerates from read.go and conn.go -/
+
+open KV.Gen.ConnLegacy in
+theorem closures_regenerated :
+    stepsEq fetchHeaderV2Gen fetchHeaderV2 = true ∧ stepsEq fetchHeaderV5Gen fetchHeaderV5 = true ∧
+    stepsEq fetchHeaderV10Gen fetchHeaderV10 = true ∧
+    stepsEq readOffsetClosureGen (readOffsetClosure partitionOffsetV1) = true ∧
+    produceClosureGen.all (fun vp => match specOf "produce" with
+                                     | some o => stepsEq vp.2 (o.parse vp.1)
+                                     | none => false) = true ∧
+    produceClosureGen.map (·.1) = versionsOf "writeCompressedMessages" ∧
+    stepsEq apiVersionsParseGen apiVersionsParse = true ∧ apiVersionsErrAfter = true := by decide
+
+/-! `stepsEq` is sound: it only accepts equal programs, so the theorems about the transcriptions are theorems about
+the regenerated programs -/
+mutual
+theorem eqv_sound : ∀ (a b : Step), a.eqv b = true → a = b := by
+  intro a b h
+  cases a <;> cases b <;> simp only [Step.eqv, Bool.and_eq_true, beq_iff_eq, Bool.false_eq_true] at h
+  all_goals first
+    | rfl
+    | (subst h; rfl)
+    | (rename_i x y; rw [stepsEq_sound x y h])
+    | (rename_i v x w y; obtain ⟨h1, h2⟩ := h; subst h1; rw [stepsEq_sound x y h2])
+theorem stepsEq_sound : ∀ (a b : List Step), stepsEq a b = true → a = b := by
+  intro a b h
+  cases a <;> cases b <;> simp only [stepsEq, Bool.and_eq_true, Bool.false_eq_true] at h
+  · rfl
+  · rename_i x xs y ys
+    rw [eqv_sound x y h.1, stepsEq_sound xs ys h.2]
+end
 
 /-! ### D2: what the fix repairs (regression witness; the unfixed shape violates the theorem) -/
 
@@ -211,12 +285,13 @@ example : d2Body.length = 37 ∧ beInt ((d2Frame 1).take 4) = d2Body.length + 4 
 /-! ### fetch -/
 
 /-- C11 for fetch (ReadBatchWith, reading the batch to its end, Batch.Close), for EVERY message-set reader that
-conserves bytes.  `hwf`: a response whose high watermark equals the fetch offset carries an empty message set. -/
+conserves bytes — no hypothesis on the frame (since the fix C11-D32 the message set of a response at the high watermark is
+skipped as well). -/
 theorem fetch_aligned_or_closed (v : Nat) (offset : Int) (b : Body) (c : Conn) (hdr body rest : Bytes)
     (hb : b.Conserves) (hopen : c.closed = false)
     (hstream : c.stream = hdr ++ body ++ rest) (hlen : hdr.length = 8)
     (hsize : beInt (hdr.take 4) = body.length + 4) (hid : beInt (hdr.drop 4) = c.nextId)
-    (hwf : ∀ cx s1, runSteps (fetchHeader v) { ver := v } ⟨body ++ rest, body.length⟩ = (.ok cx, s1) → cx.hwm = offset → s1.sz = 0) :
+    :
     ((connFetch true v offset b c).1.isFail = false ∧
         (connFetch true v offset b c).2 = { stream := rest, nextId := c.nextId + 1, closed := false }) ∨
     ((connFetch true v offset b c).1.isFail = true ∧ (connFetch true v offset b c).2.closed = true) := by
@@ -227,18 +302,19 @@ theorem fetch_aligned_or_closed (v : Nat) (offset : Int) (b : Body) (c : Conn) (
   | true => right; simp
   | false =>
     left
-    have hz := fetchRead_full v offset b ⟨body ++ rest, body.length⟩ hb (by simp) hwf hf
+    have hz := fetchRead_full v offset b ⟨body ++ rest, body.length⟩ hb (by simp) hf
     have ha := (fetchRead_adv true v offset b ⟨body ++ rest, body.length⟩ hb).consumed_all hz
     simp only [List.drop_left] at ha
     simp [ha.2]
 
-/-- why `hwf` is there: header ok, high watermark = fetch offset, but a non-empty set: the Go code takes the
-`messageSetReader{empty: true}` path, reports RequestTimedOut and leaves the set unread on a Conn it keeps.
-(No broker sends this; recorded as an observation in docs/notes/C11.md, replayed through the driver.) -/
+/-- C11-D32 (fixed): header ok, high watermark = fetch offset, but a non-empty set — the Go code takes the
+`messageSetReader{empty: true}` path and reports RequestTimedOut; before the fix it left the set unread on a Conn it
+keeps (first line, the unfixed shape), now it skips it (second line). -/
 def atWatermarkBody : Bytes :=
   [0,0,0,0, 0,0,0,1, 0,1,116, 0,0,0,1, 0,0,0,0, 0,0, 0,0,0,0,0,0,0,5, 0,0,0,3, 1,2,3]
 theorem fetch_at_watermark_counterexample :
-    fetchRead true 2 5 idealBody ⟨atWatermarkBody, atWatermarkBody.length⟩ = (.kafka 7, ⟨[1,2,3], 3⟩) := by decide
+    fetchRead false 2 5 idealBody ⟨atWatermarkBody, atWatermarkBody.length⟩ = (.kafka 7, ⟨[1,2,3], 3⟩) ∧
+    fetchRead true 2 5 idealBody ⟨atWatermarkBody, atWatermarkBody.length⟩ = (.kafka 7, ⟨[], 0⟩) := by decide
 
 /-- D2 for fetch v10 (top-level error) and v5 (partition error): unfixed shape leaves bytes, fixed shape does not -/
 def fetchErrV10 : Bytes := [0,0,0,0, 0,6, 0,0,0,9, 0,0,0,0]
@@ -254,6 +330,86 @@ theorem idealBody_conserves : idealBody.Conserves := by
     · refine ⟨s.inp, by simp, ?_⟩; simp only; omega
     · refine ⟨s.inp.take s.sz, (List.take_append_drop _ _).symm, ?_⟩
       simp only [List.length_take]; omega
+
+/-! ### message_reader.go: the reader stack keeps the frame accounting (the `Body` hypothesis, discharged)
+
+`fetch_aligned_or_closed` assumes the message-set reader conserves bytes.  Model/ReaderStack.lean models what in
+message_reader.go decides that: which reader of the stack a read touches, how a compressed batch / wrapper is charged
+to the root's `remain`, and what `discard()` discards.  The three statements involved are regenerated facts. -/
+
+section ReaderStackSec
+open KV.ReaderStack
+
+theorem rootTake_adv (r : RS) (k : Nat) (h1 : k ≤ r.sz) (h2 : k ≤ r.inp.length) : Adv r (rootTake r k k) :=
+  ⟨r.inp.take k, (List.take_append_drop k r.inp).symm, by simp only [rootTake, List.length_take]; omega⟩
+
+/-- with the three accounting facts, every operation of the reader stack keeps the root's `remain` in step with the bytes
+taken from the Conn -/
+theorem stack_step_adv (f : Facts) (hf : f.all = true) (m : MSR) (o : Op) : Adv m.root (ReaderStack.step f m o).root := by
+  have h : f.discardRewinds = true ∧ f.v2AccountsConsumed = true ∧ f.v1AccountsConsumed = true := by
+    simpa [Facts.all, and_assoc] using hf
+  cases o with
+  | read n =>
+    simp only [ReaderStack.step]
+    cases m.children with
+    | nil => exact conserves_discardN n m.root
+    | cons c cs => exact Adv.refl _
+  | pushV2 b u d =>
+    simp only [ReaderStack.step]
+    cases m.children with
+    | nil => simp only [h.2.1, ↓reduceIte]; exact rootTake_adv _ _ (by omega) (by omega)
+    | cons c cs => exact Adv.refl _
+  | pushV1 n u d =>
+    simp only [ReaderStack.step]
+    cases m.children with
+    | nil => simp only [h.2.2, ↓reduceIte]; exact rootTake_adv _ _ (by omega) (by omega)
+    | cons c cs => exact Adv.refl _
+  | pop => exact Adv.refl _
+  | discard =>
+    simp only [ReaderStack.step, h.1, ↓reduceIte]
+    exact conserves_discardN _ m.root
+
+theorem stack_run_adv (f : Facts) (hf : f.all = true) : ∀ (os : List Op) (m : MSR), Adv m.root (ReaderStack.run f m os).root
+  | [], m => Adv.refl _
+  | o :: os, m => Adv.trans (stack_step_adv f hf m o) (stack_run_adv f hf os _)
+
+/-- `discard()` (Batch.close, end of batch) leaves nothing of the fetch response unread, whatever is on the stack -/
+theorem stack_discard_empties (f : Facts) (hf : f.all = true) (m : MSR) (he : m.root.sz ≤ m.root.inp.length) :
+    (ReaderStack.step f m .discard).root = ⟨m.root.inp.drop m.root.sz, 0⟩ ∧ (ReaderStack.step f m .discard).children = [] := by
+  have h : f.discardRewinds = true := by
+    have : f.discardRewinds = true ∧ f.v2AccountsConsumed = true ∧ f.v1AccountsConsumed = true := by
+      simpa [Facts.all, and_assoc] using hf
+    exact this.1
+  simp only [ReaderStack.step, h, ↓reduceIte, discardN_all_enough m.root he, and_self]
+
+/-- the code as it is now has the three accounting statements (regenerated) -/
+theorem reader_stack_facts_hold : Gen.ConnLegacy.readerStackFacts.all = true := by decide
+
+/-- the modelled message-set reader is a `Body` that conserves bytes: the hypothesis of `fetch_aligned_or_closed` /
+`fetch_cut_is_error` is discharged for it (any operation sequences, any error it ends with) -/
+def stackBody (f : Facts) (ops1 ops2 : List Op) (e1 : Option Err) (e2 : Err) : Body where
+  first := fun s => (match e1 with | some e => .error e | none => .ok (), (ReaderStack.run f ⟨s, []⟩ ops1).root)
+  rest := fun s => (e2, (ReaderStack.run f ⟨s, []⟩ ops2).root)
+
+theorem stackBody_conserves (f : Facts) (hf : f.all = true) (ops1 ops2 : List Op) (e1 : Option Err) (e2 : Err) :
+    (stackBody f ops1 ops2 e1 e2).Conserves :=
+  ⟨fun s => stack_run_adv f hf ops1 ⟨s, []⟩, fun s => stack_run_adv f hf ops2 ⟨s, []⟩⟩
+
+/-- the two seeded shapes, as runs of the model: (1) `discard()` that only unwinds exhausted readers — closing part-way
+through a compressed batch leaves the rest of the response on the Conn; (2) a compressed v2 batch always counted as
+fully consumed — `remain` reaches 0 although the stream ended inside the payload. -/
+theorem reader_stack_counterexamples :
+    (let f : Facts := ⟨false, true, true⟩
+     let m := ReaderStack.run f ⟨⟨List.replicate 100 0, 100⟩, []⟩ [.read 61, .pushV2 20 20 50, .read 10, .discard]
+     m.root.sz = 19 ∧ m.root.inp.length = 19) ∧
+    (let f : Facts := ⟨true, false, true⟩
+     let m := ReaderStack.run f ⟨⟨List.replicate 70 0, 100⟩, []⟩ [.read 61, .pushV2 39 39 0, .pop, .discard]
+     m.root.sz = 0 ∧ m.root.inp.length = 0) ∧
+    (let f : Facts := ⟨true, true, true⟩
+     let m := ReaderStack.run f ⟨⟨List.replicate 70 0, 100⟩, []⟩ [.read 61, .pushV2 39 39 0, .pop, .discard]
+     m.root.sz = 30) := by decide
+
+end ReaderStackSec
 
 /-! ### listOffsets: the one operation that relies on the shape of a well-formed frame -/
 
@@ -338,26 +494,26 @@ theorem lock_released_on_every_path (lf : LockFacts) (h : lf.all = true) (inflig
     (connDoL lf inflight o v topic (c, false)).2.2 = false ∧
     (inflight = false → (connDoL lf inflight o v topic (c, false)).1 = (connDo o v topic c).1 ∧
                         (connDoL lf inflight o v topic (c, false)).2.1 = (connDo o v topic c).2) := by
-  have hh : lf.peekErr = true ∧ lf.noProgress = true ∧ lf.yield = true ∧ lf.take = true ∧ lf.doBody = true ∧
+  have hh : lf.peekErr = true ∧ lf.noProgress = true ∧ lf.desyncCloses = true ∧ lf.yield = true ∧ lf.take = true ∧ lf.leave = true ∧ lf.doBody = true ∧
       lf.apiVersions = true ∧ lf.batchHandover = true ∧ lf.batchClose = true := by
     simpa [LockFacts.all, and_assoc] using h
-  obtain ⟨h1, h2, _, h4, h5, h6, _, _⟩ := hh
+  obtain ⟨h1, h2, hd, _, h4, hl, h5, h6, _, _⟩ := hh
   have hrel : ∀ p, released lf o.closeOnErr p = true := by
-    intro p; cases p <;> simp [released, h1, h2, h4, h5, h6]
+    intro p; cases p <;> simp [released, h1, h2, h4, h5, h6, hl]
   refine ⟨by simp [connDoL, hrel], ?_⟩
   intro hi
   subst hi
-  simp [connDoL]
+  simp [connDoL, hd]
 
 theorem lock_released_fetch (lf : LockFacts) (h : lf.all = true) (fixed : Bool) (v : Nat) (off : Int) (b : Body) (c : Conn) :
     (connFetchL lf fixed v off b (c, false)).2.2 = false := by
-  have hh : lf.peekErr = true ∧ lf.noProgress = true ∧ lf.yield = true ∧ lf.take = true ∧ lf.doBody = true ∧
+  have hh : lf.peekErr = true ∧ lf.noProgress = true ∧ lf.desyncCloses = true ∧ lf.yield = true ∧ lf.take = true ∧ lf.leave = true ∧ lf.doBody = true ∧
       lf.apiVersions = true ∧ lf.batchHandover = true ∧ lf.batchClose = true := by
     simpa [LockFacts.all, and_assoc] using h
-  obtain ⟨h1, h2, _, h4, h5, _, h7, h8⟩ := hh
+  obtain ⟨h1, h2, _, _, h4, hl, h5, _, h7, h8⟩ := hh
   unfold connFetchL
   simp only [Bool.false_and, Bool.false_eq_true, ↓reduceIte, Bool.false_or, Bool.not_eq_eq_eq_not, Bool.not_false]
-  cases exitPath false c <;> simp [released, h1, h2, h4, h5, h7, h8]
+  cases exitPath false c <;> simp [released, h1, h2, h4, h5, h7, h8, hl]
 
 /-- once the lock is leaked, every operation whose request goes out blocks — result and state never change again -/
 theorem leaked_lock_blocks (lf : LockFacts) (inflight : Bool) (o : OpSpec) (v : Nat) (topic : Bytes) (c : Conn)
